@@ -54,9 +54,11 @@ for rf in (True, False):
         MODES.append(("insert_python_eval", {"run_first": rf, "use_output_as_unpickle_result": uo}))
         MODES.append(("insert_python_exec", {"run_first": rf, "use_output_as_unpickle_result": uo}))
         MODES.append(("insert_python_stdlib", {"run_first": rf, "use_output_as_unpickle_result": uo}))
+        MODES.append(("insert_python_qualified", {"run_first": rf, "use_output_as_unpickle_result": uo}))
 for pr in (True, False):
     MODES.append(("append_python", {"pop_result": pr}))
     MODES.append(("append_python_stdlib", {"pop_result": pr}))
+    MODES.append(("append_python_qualified", {"pop_result": pr}))
 for cc in (False, True):
     for ca in (None, [1, "a"]):
         MODES.append(("function_call", {"compile_code": cc, "constant_args": ca}))
@@ -82,6 +84,11 @@ def apply_mode(p, mode, kw):
         p.insert_python(module="platform", attr="python_implementation", **kw)
     elif mode == "append_python_stdlib":
         p.append_python(module="platform", attr="python_implementation", **kw)
+    elif mode == "insert_python_qualified":
+        # a callable reached through a qualified name (method of a class), as protocol >= 4 allows
+        p.insert_python("verif", module="builtins", attr="str.upper", **kw)
+    elif mode == "append_python_qualified":
+        p.append_python("verif", module="builtins", attr="str.upper", **kw)
     elif mode == "append_python":
         p.append_python(PAYLOAD_TAG, ARG2[0], module="verif_sink", attr="sink", **kw)
     elif mode == "function_call":
@@ -167,6 +174,8 @@ def check(data, mode, kw, loader):
     if loader == "py" and base["framed"]:
         return None, "framed-skipped-for-pure-python"
     case = {"hex": data.hex(), "mode": mode, "kw": kw, "loader": loader, "arg2": repr(ARG2[0])}
+    if mode.endswith("_qualified") and not any(o[0].name == "PROTO" and o[1] >= 4 for o in base["ops"]):
+        return None, "qualified-name-needs-protocol-4"
     try:
         p = Pickled.load(data)
         apply_mode(p, mode, kw)
@@ -187,7 +196,7 @@ def check(data, mode, kw, loader):
     ref = run_ref(strip_frames(out))
     if not ref.ok:
         return fail(f"reference VM rejects the rewritten bytes: {ref.error!r}")
-    keeps_obj_below = mode in ("append_python", "append_python_stdlib") and not kw["pop_result"]
+    keeps_obj_below = mode in ("append_python", "append_python_stdlib", "append_python_qualified") and not kw["pop_result"]
     if ref.stack_at_stop != ([], []) and not keeps_obj_below:
         return fail(f"VM stack not empty at STOP: {ref.stack_at_stop!r}")
     base_fc = [e for e in base["ref"].log.events if e[0] == "import"]
@@ -202,7 +211,7 @@ def check(data, mode, kw, loader):
     value, log = res[1], res[2]
     payload_calls = [e for e in log if is_payload(e)]
     base_calls = [e for e in log if not is_payload(e)]
-    stdlib_mode = mode.endswith("_stdlib")  # the injected call is not observable through the sink
+    stdlib_mode = mode.endswith(("_stdlib", "_qualified"))  # the injected call is not observable through the sink
     if mode == "magic_int" or stdlib_mode:
         if payload_calls:
             return fail("a call of the sink appeared that nobody injected")
@@ -233,6 +242,10 @@ def check(data, mode, kw, loader):
         want = platform.python_implementation() if kw["use_output_as_unpickle_result"] else base["value"]
     elif mode == "append_python_stdlib":
         want = base["value"] if kw["pop_result"] else platform.python_implementation()
+    elif mode == "insert_python_qualified":
+        want = "VERIF" if kw["use_output_as_unpickle_result"] else base["value"]
+    elif mode == "append_python_qualified":
+        want = base["value"] if kw["pop_result"] else "VERIF"
     elif mode in ("insert_python", "insert_python_eval", "insert_python_exec"):
         if kw["use_output_as_unpickle_result"]:
             want = None if mode == "insert_python_exec" else (
